@@ -503,6 +503,8 @@ class Path:
             goal = goal.t
         if isinstance(goal, bool):
             goal = z3.BoolVal(goal)
+        if info is None and getattr(self, 'env_for_replay', None) is not None:
+            info = {'env': self.env_for_replay, 'clause': None, 'outcome': None, 'internal': True}
         self.obligs.append(Obligation(name, list(self.pc), goal, self.line, info))
 
     def note_assumption(self, text):
